@@ -5,6 +5,7 @@ import (
 	"fmt"
 	"reflect"
 	"sort"
+	"time"
 	"unsafe"
 )
 
@@ -32,9 +33,12 @@ func recvRef[T any](c <-chan T) *chanRef {
 	if c == nil {
 		return nil
 	}
+	var z T
+	_, isTime := any(z).(time.Time)
 	return &chanRef{
-		id:   chanID(c),
-		lenf: func() int { return len(c) },
+		id:    chanID(c),
+		clock: isTime,
+		lenf:  func() int { return len(c) },
 		capf: func() int { return cap(c) },
 		closed: func() bool {
 			if len(c) > 0 {
@@ -68,6 +72,7 @@ func Send[T any](c chan<- T, v T) {
 		return
 	}
 	t := s.yield(&Op{kind: opSend, ch: sendRef(c)})
+	s.rvS = nil
 	c <- v
 	s.afterSend(t)
 }
@@ -139,7 +144,11 @@ func SelSend[T any](c chan<- T, v T) {
 		c <- v
 		return
 	}
-	t := s.active
+	t := s.rvS // set when this send is the sending half of a rendezvous (then s.active is the receiver)
+	if t == nil {
+		t = s.active
+	}
+	s.rvS = nil
 	c <- v
 	s.afterSend(t)
 }
